@@ -11,6 +11,7 @@ import SfsModel.Driver.Create
 import SfsModel.Driver.Io
 import SfsModel.Driver.Stat
 import SfsModel.Driver.Panic
+import SfsModel.Driver.Container
 open Sfs Sfs.Drv
 
 def half : XR := .fin (1 / 2)
@@ -104,6 +105,15 @@ def handle (op : String) (a : List String) (impl : String) : Option Verdict :=
       if impl.startsWith "OK " then pure (cmpArr (impl.drop 3).toString b.shape b.data (some (sumAbs data)) "project-two-step")
       else pure (.bad s!"OK {showNats b.shape}|{showXRs b.data}")
     | .error _ => pure (cmpStr impl "ERR" "project-two-step-error")
+  | "c03.row", [sh, ix, ts] => do
+    let shape ← parseNats sh; let idx ← parseNats ix; let toShape ← parseNats ts
+    match projectionNew shape toShape with
+    | .ok (pf, pt) =>
+      let row : List XR := projectIter pf idx pt
+      if impl.startsWith "OK " then pure (cmpArr (impl.drop 3).toString toShape row (some 1)
+        s!"project-row-{if pf.any (· ≥ 1030) then "ge1030" else if pf.any (· > 170) then "171to1029" else "le170"}")
+      else pure (.bad s!"OK {showNats toShape}|{showXRs row}")
+    | .error _ => pure (if impl.startsWith "ERR" then .ok "project-row-error" else .bad "ERR")
   | "c03.pmf", [bn, bk, sn, sk] => do
     let N ← bn.toNat?; let K ← bk.toNat?; let n ← sn.toNat?; let k ← sk.toNat?
     let b ← parseHexNat impl
@@ -145,6 +155,7 @@ def handle (op : String) (a : List String) (impl : String) : Option Verdict :=
     | [p, "mem"] => handleMem a impl p
     | [p, "cli"] => handleCli a impl p
     | ["c12", "same"] => handleSame a impl
+    | ["ct", "create"] => handleBytes a impl
     | ["io", _] => handleIo op a impl
     | ["st", _] => handleStat op a impl
     | ["pn", _] => handlePanic op a impl
@@ -170,7 +181,13 @@ partial def loop (h : IO.FS.Stream) (out : IO.FS.Stream) : IO Unit := do
   out.putStrLn (processLine line)
   loop h out
 
-def main : IO Unit := do
+def main (args : List String) : IO Unit := do
   let out ← IO.getStdout
-  loop (← IO.getStdin) out
-  out.flush
+  match args with
+  | ["--emit", seed] =>
+    -- requests generated by the model itself (container bytes written by the Lean encoders)
+    for l in emitCases (seed.toNat?.getD 1) do out.putStrLn l
+    out.flush
+  | _ =>
+    loop (← IO.getStdin) out
+    out.flush
